@@ -64,6 +64,8 @@ class Context(object):
     def record(self, rule, function, construct, ok, detail='', where='', nontrivial=True, sample=None):
         """ok: True | False | None (undecided)"""
         verdict = 'ok' if ok is True else ('violation' if ok is False else 'undecided')
+        # instances are keyed by the name the rule addresses the function by, not by where a refactoring has moved its definition
+        function = getattr(self.model, 'alias_back', {}).get(function, function)
         if rule not in self.rule_text:
             raise AnalysisError('rule %s used without declaration' % rule)
         self.instances.append(Instance(rule, function, construct, verdict, detail, where, nontrivial, sample))
